@@ -1120,20 +1120,21 @@ def split_cases(ctx):
 def splitreal_cases(ctx):
     rng = ctx.rng
     cases = []
-    for _ in range(ctx.pick(150, 1500)):
-        # two or three bumps in one channel, one parent peak spanning everything, with or without a right extension
-        bumps = [rng.choice([[8, 8], [4, 8, 4], [8], [2, 8, 2]]) for _k in range(rng.randint(2, 3))]
-        hits, t = [], rng.randint(0, 2)
+    while len(cases) < ctx.pick(300, 3000):
+        # two or three bumps in one or two channels, one parent peak spanning everything (<= N_S samples, so that the
+        # fragments are not down-sampled), with or without a zero sample after the last hit
+        bumps = [rng.choice([[8], [8], [4, 8], [8, 4], [8, 8]]) for _k in range(rng.randint(2, 3))]
+        hits, t = [], rng.randint(0, 1)
         for b in bumps:
             hits.append([t, len(b), 1, rng.randrange(2), sum(b), b])
-            t += len(b) + rng.randint(2, 4)
-        end = hit_end(hits[-1]) + rng.choice([0, 0, 1, 2])
-        if end - 0 > N_S * 3:
+            t += len(b) + rng.randint(1, 2)
+        end = hit_end(hits[-1]) + rng.choice([0, 0, 1])
+        if end > N_S:
             continue
         alg = rng.choice(["local_minimum", "natural_breaks"])
         cases.append(dict(dt=1, to_pe=[1, 1, 1, 1], hits=hits, peaks=[dict(time=0, length=end, dt=1)], algorithm=alg,
-                          min_height=1, threshold="1/8"))
-    return [c for c in cases if c["peaks"][0]["length"] <= N_S]
+                          min_height=1, threshold=rng.choice(["1/8", "1/2"])))
+    return cases
 
 
 def helper_cases(ctx):
